@@ -80,6 +80,10 @@ class QuicSession:
 
         self.init_keys_done = False
 
+        self.retry_seen = False
+        self.server_initial_seen = False
+        self.packet_from_server_address = False
+
     # reset Quic Session Parameters, except output buffer and Socket Addresses
     def reset(self):
         self.client_cids = []
@@ -272,6 +276,8 @@ class QuicSession:
             self.set_initial_decryptor(dcid, False)
 
         isserver = self.packet_isserver(packet, dcid)
+        # a Retry is only meaningful from the server the client addressed (see handle_quic_packet)
+        self.packet_from_server_address = packet.ip_src == self.server_ip and packet.sport == self.server_port
 
         while len(packet.tls_data) != 0:
             quic_packets, packet = extract_quic_packet(in_packet=packet, isserver=isserver, guessed_dcid=dcid, keys=self.keys, ciphersuite=self.tls_session.ciphersuite)
@@ -290,6 +296,11 @@ class QuicSession:
                 self.handle_frame(frame)
 
             if quic_packet.packet_type == QuicPacketType.RETRY:
+                # RFC 9000 17.2.5.2: at most one Retry per connection attempt, and none after an Initial packet of the server;
+                # anything else of that shape (its integrity tag is not checked here) is discarded
+                if self.retry_seen or self.server_initial_seen or not self.packet_from_server_address:
+                    continue
+                self.retry_seen = True
                 self.tls_session = QuicTlsSession()
                 self.decryptors = {}
                 self.keys: dict[str, bytes] = {}
@@ -302,6 +313,7 @@ class QuicSession:
 
             if quic_packet.packet_type == QuicPacketType.INITIAL:
                 if quic_packet.isserver:
+                    self.server_initial_seen = True
                     self.server_cids.add(quic_packet.scid)
                     self.client_cids.add(quic_packet.dcid)
                 else:
